@@ -101,6 +101,28 @@ def firstSlotsOK (kids : List Box) : Bool :=
       go (r + 1) rows
   go 0 kids
 
+/-- the visible cells of a row group, each with the index of its row -/
+def cellsFrom : Nat → List Box → List (Nat × Box)
+  | _, [] => []
+  | r, row :: rows => (rowCells row).map (fun c => (r, c)) ++ cellsFrom (r + 1) rows
+
+def sharesSlot (p q : Nat × Box) : Bool :=
+  (cellSlots p.1 p.2).any (fun s => (cellSlots q.1 q.2).contains s)
+
+/-- the ONE situation in which two cells share a slot in this code base (left undefined by CSS 2.1 §17.5,
+    expected by the repository's own TestColspanRowspan1): `p` is a cell of an earlier row that spans
+    several rows, `q` a cell of a later row that spans several columns and starts left of `p` -/
+def overlap175 (p q : Nat × Box) : Bool :=
+  p.1 < q.1 && p.2.a.rowspan > 1 && q.2.a.colspan > 1 && q.2.a.gridX < p.2.a.gridX
+
+/-- every two distinct cells (by position, `p` before `q` in document order) that share a slot are in
+    that situation -/
+def pairsOK : List (Nat × Box) → Bool
+  | [] => true
+  | p :: rest => rest.all (fun q => !sharesSlot p q || overlap175 p q) && pairsOK rest
+
+def overlapsOnly175 (kids : List Box) : Bool := pairsOK (cellsFrom 0 kids)
+
 /-- all local clauses at one box -/
 def nodeOK (ty : Ty) (a : Attrs) (kids cols : List Box) : Bool :=
   blockContainerOK ty kids && inlineOK ty kids && flexGridOK ty kids &&
@@ -131,7 +153,7 @@ def nodeReasons (ty : Ty) (a : Attrs) (kids cols : List Box) : List String :=
   (if tableKidsOK ty a kids cols then [] else ["table wrapper / table / row group / row / column group has a wrong child"]) ++
   (if gridOK ty kids then []
    else if nodup (groupSlotsFrom 0 kids) then ["a cell span is empty or leaves the row group"]
-   else if firstSlotsOK kids then ["two cells on the same grid slot: a column-spanning cell runs into a row-spanning cell of an earlier row"]
+   else if overlapsOnly175 kids then ["two cells on the same grid slot: a column-spanning cell runs into a row-spanning cell of an earlier row"]
    else ["two cells on the same grid slot"]) ++
   (if isParent ty || kids.isEmpty then [] else ["non-parent box has children"])
 
